@@ -41,8 +41,8 @@ STUBS = ['PipeSocket / ScriptedPeer', 'virtual-time loop with the real '
          'gevent.Timeout', 'Popen stub', 'fake HTTP connection']
 ASSUMPTIONS = []
 CELL_BUDGET_S = {'quick': 240, 'thorough': 2400}
-SAMPLE_P = 0.005
-MAX_WITNESSES = 3
+SAMPLE_P = 0.02
+MAX_WITNESSES = 6
 CMD_T = 10
 DATA_T = 30
 
